@@ -88,8 +88,6 @@ def parseOracle (s : String) : List Codec :=
       | [n, c, k] => some { name := unhex n, compat := c == "1", kind := parseKind k }
       | _ => none
 
-def inRanges (rs : List (Nat × Nat)) (c : Char) : Bool := rs.any fun (a, b) => a ≤ c.toNat && c.toNat ≤ b
-
 /-- `.other` doubles as the oracle-miss marker: the harness never lets a real "other" outcome reach the model
     except through kind `q`, where the line is skipped. -/
 def mkEnv (oracle : List Codec) : Env where
@@ -105,9 +103,9 @@ def mkEnv (oracle : List Codec) : Env where
     | some ⟨_, _, .multi t⟩ => wrap (decodeMulti t bs)
     | some ⟨_, _, .unknown⟩ => .other
     | none => if name == latin1Name then wrap (decodeLatin1 bs) else if name == asciiName then wrap (decodeAscii bs) else .other
-  isSpace := inRanges Generated.PolibFsm.spaceRanges
-  isDigit := inRanges Generated.PolibFsm.digitRanges
-  decimal c := (Generated.PolibFsm.decimalRanges.find? fun (a, b) => a ≤ c.toNat && c.toNat ≤ b).map fun (a, _) => (c.toNat - a) % 10
+  isSpace := pyIsSpace
+  isDigit := pyIsDigit
+  decimal := pyDecimal
 
 def optText : Option Text → String
   | none => "~"
